@@ -128,3 +128,22 @@ register(NativeGroup('plumb.filter', dict(quick=[('filter', 2), ('filter', 3)], 
                      [('pyspike/spike_sync.py', 'filter_by_spike_sync')]))
 from . import relations  # noqa
 from . import lemmas  # noqa
+
+# ---- remaining functions: get_spikes_non_empty, class methods, reconcile, thresholds, merge
+from ..contracts import misc as MI  # noqa
+
+kernel('nonempty.B', MI.NonEmpty(), 'B', sizes_quick=[(0,), (1,), (2,)], sizes_thorough=[(0,), (1,), (2,), (3,)], bound_text='0..3 spikes; loop-free')
+_MS = [(n,) for n in (1, 2, 3)]
+_MS2 = [(a, b) for a in (1, 2) for b in (1, 2)]
+for _k, _C in (('pwc', MI.PwcMethod), ('pwl', MI.PwlMethod), ('disc', MI.DiscMethod)):
+    kernel('%s_mul.B' % _k, _C('mul_scalar'), 'B', sizes_quick=_MS, sizes_thorough=_MS, bound_text='<= 3 pieces / events')
+    kernel('%s_copy.B' % _k, _C('copy'), 'B', sizes_quick=_MS, sizes_thorough=_MS, bound_text='<= 3 pieces / events')
+    kernel('%s_add_fb.B' % _k, _C('add', 'fallback'), 'B', sizes_quick=_MS2, sizes_thorough=sizes(1, 3), bound_text='<= 2 (quick) / 3 (thorough) pieces per operand; fallback kernel inlined')
+    kernel('%s_add_cy.B' % _k, _C('add', 'compiled'), 'B', sizes_quick=_MS2, sizes_thorough=sizes(1, 3), bound_text='<= 2 (quick) / 3 (thorough) pieces per operand; extracted Cython kernel inlined')
+kernel('reconcile.B', MI.Reconcile(), 'B', sizes_quick=[(0, 1), (1, 1), (2, 1), (2, 2)], sizes_thorough=[(0, 1), (1, 1), (2, 1), (2, 2), (3, 2), (2, 2, 1)],
+       bound_text='<= 2 trains with <= 2 spikes (quick), up to 3 trains / 3 spikes (thorough); arbitrary order, repeats and own edges')
+kernel('merge.B', MI.Merge(), 'B', sizes_quick=[(0, 1), (1, 1), (2, 1), (2, 2)], sizes_thorough=[(0, 1), (1, 1), (2, 1), (2, 2), (3, 2), (2, 2, 1)],
+       bound_text='<= 2 trains with <= 2 spikes (quick), up to 3 trains / 3 spikes (thorough)')
+kernel('isilen.B', MI.IsiLengths(), 'B', sizes_quick=[(n,) for n in range(0, 4)], sizes_thorough=[(n,) for n in range(0, 5)], bound_text='<= 3 (quick) / 4 (thorough) spikes')
+kernel('thresh.B', MI.DefaultThresh(), 'B', sizes_quick=[(0, 1), (1, 2), (2, 2), (3,)], sizes_thorough=[(0, 1), (1, 2), (2, 2), (3,), (3, 2), (1, 1, 2)],
+       bound_text='<= 2 trains with <= 3 spikes (quick); 3 trains (thorough)')
